@@ -722,6 +722,19 @@ func (cs *connState) buildPut(w *world, d caseDesc, rnd *rand.Rand) *request {
 		v := arg % len(bodies)
 		rq.Body = []byte(bodies[v])
 		rq.Variant = fmt.Sprintf("wrong types %d: %s", v, trunc(bodies[v], 60))
+	case "entry-mix":
+		// several entries in one request: entries that ask for nothing (neither value nor ev, or a null value), entries that
+		// cannot be applied (unknown ids, ev on the target whatever it permits) and good ones, in every order of three
+		none := fmt.Sprintf(`{"aid":%d,"iid":%d}`, t.AID, t.IID)
+		null := fmt.Sprintf(`{"aid":%d,"iid":%d,"value":null}`, t.AID, t.IID)
+		bad := fmt.Sprintf(`{"aid":%d,"iid":999999,"value":true}`, t.AID)
+		badAcc := fmt.Sprintf(`{"aid":88888,"iid":%d,"ev":true}`, t.IID)
+		ev := fmt.Sprintf(`{"aid":%d,"iid":%d,"ev":true}`, t.AID, t.IID)
+		good := fmt.Sprintf(`{"aid":%d,"iid":%d,"value":true}`, t.AID, t.IID)
+		parts := []string{none, null, bad, badAcc, ev, good}
+		a, b, c := parts[arg%6], parts[arg/6%6], parts[arg/36%6]
+		rq.Body = []byte(`{"characteristics":[` + a + `,` + b + `,` + c + `]}`)
+		rq.Variant = fmt.Sprintf("three entries: kinds %d, %d, %d of (nothing, null value, unknown iid, unknown aid, ev, value)", arg%6, arg/6%6, arg/36%6)
 	case "ev-types":
 		evs := []string{"1", "0", `"true"`, "null", "{}", "[true]", "1e300"}
 		v := arg % len(evs)
